@@ -107,7 +107,7 @@ def summarise(ref, res):
     return dict(event=res['event'], k=res['k'], mech=res['mech'], order=res['order'], driver=res['driver'],
                 flags=res.get('flags'), status=res.get('status'), fired=res.get('fired'),
                 count_exc=res.get('count_exc'), unraisable=res.get('unraisable'),
-                nmark=sum(1 for a in res.get('actions', ()) if canon.is_marker_canon(a)),
+                nmark=count_markers(ref, res.get('actions') or []),
                 viols=check(ref, res), rhash=h.hexdigest()[:12])
 
 
@@ -304,61 +304,60 @@ def check(ref, res):
                       frame=res.get('frame'), line_text=res.get('line_text', '')))
         return v
     F = ref['actions']
-    # record actions
-    I = [a for a in res['actions'] if not canon.is_marker_canon(a)]
-    bad = canon.is_prefix(I, F)
-    if bad >= 0:
-        v.append(dict(cls='not-prefix', what='record', index=bad, len_i=len(I), len_f=len(F),
-                      got=I[bad][:400] if bad < len(I) else None,
-                      want=F[bad][:400] if bad < len(F) else None))
-    nmark = len(res['actions']) - len(I)
-    if nmark > 1:
+    # record actions: a prefix of the reference's, followed only by logged marker entries
+    A = res['actions']
+    j, rest = _lcp_rest(A, F)
+    marker_msgs = []
+    if all('"s:tag": "log"' in a for a in rest):
+        for a in rest:
+            try:
+                marker_msgs.append(str(json.loads(a).get('s:msg')))
+            except ValueError:
+                marker_msgs.append('')
+    else:
+        v.append(dict(cls='not-prefix', what='record', index=j, len_i=len(A), len_f=len(F),
+                      got=rest[0][:400] if rest else None, want=F[j][:400] if j < len(F) else None))
+    if len(marker_msgs) > 1:
         v.append(dict(cls='marker-duplicated', what='record', msg='%d interrupt markers logged (renderers %s)' % (
-            nmark, ",".join(res.get('order') or res.get('flags') or [])), frame=None, line_text=None))
-    rends = {}
+            len(marker_msgs), ",".join(res.get('order') or res.get('flags') or [])), frame=None, line_text=None))
+    marker_lines = set("\t" + m for m in marker_msgs)
     for r in res['renderings']:
         if 'exc' in r:
             v.append(dict(cls='render-raises', what=r['name'], exc=r['exc'], msg=r['msg'], frame=r['frame'],
                           line_text=r['line_text']))
             continue
         txt = r['text']
-        rends[r['name']] = txt
         if not isinstance(txt, str):
             v.append(dict(cls='render-invalid', what=r['name'], msg='not a string: %s' % type(txt).__name__))
             continue
-        low = txt.lower()
-        if 'interrupt' not in low:
-            v.append(dict(cls='not-marked', what=r['name'], msg='no interruption mark in the rendering'))
+        marked = 'interrupt' in txt.lower()     # any wording of a banner; or a logged marker entry (below)
         if r['name'] == 'report':
-            if 'terminated prematurely' not in low and 'interrupt' in low:
-                # banner reworded: accept any wording that mentions the interrupt outside the logged marker line
-                others = [ln for ln in txt.split('\n') if 'interrupt' in ln.lower() and 'this round is incomplete' not in ln]
-                if not others:
-                    v.append(dict(cls='not-marked', what='report', msg='report lacks the interrupt banner'))
             a0 = _report_action_lines(ref['rend']['report'])
             a1 = _report_action_lines(txt)
             if a0 is not None and a1 is not None:
-                a1 = _strip_marker_lines(a1)
-                while a1 and a1[-1] == '':
-                    a1.pop()
-                bad = canon.is_prefix(a1, a0)
-                if bad >= 0:
-                    v.append(dict(cls='render-not-prefix', what='report', index=bad,
-                                  got=a1[bad][:200] if bad < len(a1) else None,
-                                  want=a0[bad][:200] if bad < len(a0) else None))
-            elif a0 is not None and a1 is None and len(I) > 0:
+                jj, rest1 = _lcp_rest(a1, a0)
+                extra = [ln for ln in rest1 if ln != '']
+                if any(ln in marker_lines for ln in extra):
+                    marked = True
+                bad = [ln for ln in extra if ln not in marker_lines and 'interrupt' not in ln.lower()]
+                if bad:
+                    v.append(dict(cls='render-not-prefix', what='report', index=jj, got=bad[0][:200],
+                                  want=a0[jj][:200] if jj < len(a0) else None))
+            elif a0 is not None and a1 is None and j > 0:
                 v.append(dict(cls='render-not-prefix', what='report', index=0, got=None, want=a0[0][:200],
                               msg='no action section in the interrupted report'))
         elif r['name'] == 'dump':
             d0 = ref['rend']['dump'].split('\n')[1:]
-            d1 = _strip_marker_lines(txt.split('\n')[1:])
-            while d1 and d1[-1] == '':
-                d1.pop()
-            bad = canon.is_prefix(d1, d0)
-            if bad >= 0:
-                v.append(dict(cls='render-not-prefix', what='dump', index=bad,
-                              got=d1[bad][:200] if bad < len(d1) else None,
-                              want=d0[bad][:200] if bad < len(d0) else None))
+            d1 = txt.split('\n')[1:]
+            jj, rest1 = _lcp_rest(d1, d0)
+            extra = [ln for ln in rest1 if ln != '']
+            logrows = [ln for ln in extra if (ln.split('\t') + ['', ''])[1] == 'log']
+            if logrows:
+                marked = True
+            if len(logrows) != len(extra):
+                bad = [ln for ln in extra if ln not in logrows]
+                v.append(dict(cls='render-not-prefix', what='dump', index=jj, got=bad[0][:200],
+                              want=d0[jj][:200] if jj < len(d0) else None))
         elif r['name'] == 'json':
             try:
                 j1 = json.loads(txt)
@@ -369,21 +368,23 @@ def check(ref, res):
                 v.append(dict(cls='render-invalid', what='json', msg='%s: %s' % (type(e).__name__, str(e)[:100])))
                 continue
             acts0 = json.loads(ref['rend']['json'])['actions']
-            acts1 = [a for a in acts1 if not (isinstance(a, dict) and a.get('tag') == 'log'
-                                              and 'interrupt' in str(a.get('msg', '')).lower())]
             c0 = [json.dumps(a, sort_keys=True) for a in acts0]
             c1 = [json.dumps(a, sort_keys=True) for a in acts1]
-            bad = canon.is_prefix(c1, c0)
-            if bad >= 0:
-                v.append(dict(cls='render-not-prefix', what='json', index=bad,
-                              got=c1[bad][:200] if bad < len(c1) else None,
-                              want=c0[bad][:200] if bad < len(c0) else None))
+            jj, rest1 = _lcp_rest(c1, c0)
+            logs = [a for a in acts1[jj:] if isinstance(a, dict) and a.get('tag') == 'log']
+            if logs:
+                marked = True
+            if len(logs) != len(rest1):
+                v.append(dict(cls='render-not-prefix', what='json', index=jj, got=rest1[0][:200] if rest1 else None,
+                              want=c0[jj][:200] if jj < len(c0) else None))
+        if not marked:
+            v.append(dict(cls='not-marked', what=r['name'], msg='no interruption mark in the rendering'))
     if res['driver'] == 'main':
         out = res.get('main_out')
         if not isinstance(out, str):
             v.append(dict(cls='main-diverges', what='main', msg='main returned %s' % type(out).__name__))
         else:
-            if 'interrupt' not in out.lower():
+            if 'interrupt' not in out.lower() and not any(m and m in out for m in marker_msgs):
                 v.append(dict(cls='not-marked', what='main', msg='main output lacks any interruption mark'))
             if not any('exc' in r for r in res['renderings']):
                 exp = "".join(r['text'] for r in res['renderings'])
@@ -391,6 +392,21 @@ def check(ref, res):
                     v.append(dict(cls='main-diverges', what='main',
                                   msg='main output differs from report+dump+json of the interrupted election'))
     return v
+
+
+def _lcp_rest(seq, refseq):
+    "(length of the longest common prefix, what follows it in seq)"
+    n = min(len(seq), len(refseq))
+    j = 0
+    while j < n and seq[j] == refseq[j]:
+        j += 1
+    return j, seq[j:]
+
+
+def count_markers(ref, actions):
+    "number of trailing logged entries that are not actions of the reference (the interrupt markers)"
+    j, rest = _lcp_rest(actions, ref['actions'])
+    return len(rest) if all('"s:tag": "log"' in a for a in rest) else 0
 
 
 def signature(viol):
